@@ -173,6 +173,7 @@ W_EXC = "writer: save() raises no exception"
 R_EXC = "reader: load() of a document in the documented layout raises no exception"
 R_TREE = "reader: load() returns the tree the document describes"
 R_META = "reader: file_meta receives the header"
+R_MAPPER = "reader: the deserialize mapper is called exactly once per dict entry, with a dict (bare strings and references are not mapped)"
 R_EXAMPLE = "reader: user-guide example loads into the tree the guide shows"
 R_REJECT = "reader: JSON without the nutree header raises RuntimeError"
 R_REJECT_ANY = "reader: JSON with a malformed 'meta' member is rejected"
@@ -314,11 +315,21 @@ def header_variants(fam: Family, labels):
         ("custkeys+vals", dict(fam.key_custom), {**kinds_vm, **vm_custom}),
         ("otherkeys+vals", other_short, vm_custom),
         ("vals", {}, {**vm_custom, **kinds_vm}),
-    ]
+    ] + ([("plain-tree layout", {}, {}), ("plain-tree layout+defkeys", dict(DOC_KEY_MAP[fam.name]), {})] if fam.typed and type(fam.mk()("a")) is str else [])
+
+
+def _plain_twin(fam: Family):
+    """the same family writing the *plain-tree* layout (no kinds; bare strings where possible): what Tree.save or an
+    independent encoder for plain trees produces, and a TypedTree must still load (all kinds default to 'child')"""
+    f2 = copy.copy(fam)
+    f2.typed = False
+    return f2
 
 
 def make_doc(fam: Family, spec: gen.Spec, variant) -> dict:
     name, key_map, value_map = variant
+    if name.startswith("plain-tree layout"):
+        fam = _plain_twin(fam)
     head = {"$generator": "nutree/0.5.1" if name in ("plain", "vals") else "nutree/9.9.9-other", "$format_version": "1.0"}
     if key_map:
         head["$key_map"] = key_map
@@ -328,8 +339,10 @@ def make_doc(fam: Family, spec: gen.Spec, variant) -> dict:
     return {"meta": head, "nodes": encode_nodes(recs_from_spec(fam, spec), key_map, value_map)}
 
 
-def expected_of_doc(fam: Family, spec: gen.Spec, doc: dict):
+def expected_of_doc(fam: Family, spec: gen.Spec, doc: dict, variant=None):
     exp = desc_from_spec(fam, spec)
+    if variant is not None and variant[0].startswith("plain-tree layout"):
+        exp.kinds = ["child" for _ in exp.kinds]
     # a clone group shares ONE object iff all later members are integer references
     refs = [type(e[1]) is int for e in doc["nodes"]]
     exp.shared = tuple(all(refs[i] for i in g[1:]) for g in exp.groups)
@@ -339,11 +352,16 @@ def expected_of_doc(fam: Family, spec: gen.Spec, doc: dict):
 def check_reader(fam: Family, spec: gen.Spec, variant) -> list:
     doc = make_doc(fam, spec, variant)
     text = json.dumps(doc, ensure_ascii=(len(spec) % 2 == 0))
-    exp = expected_of_doc(fam, spec, doc)
+    exp = expected_of_doc(fam, spec, doc, variant)
     file_meta = {}
     kw = dict(file_meta=file_meta)
+    calls = []
     if fam.load_mapper is not None:
-        kw["mapper"] = fam.load_mapper
+        def counting(parent, data, _m=fam.load_mapper):
+            calls.append(type(data).__name__)
+            return _m(parent, data)
+
+        kw["mapper"] = counting
     try:
         with time_limit(10):
             loaded = fam.load_cls.load(io.StringIO(text), **kw)
@@ -363,6 +381,9 @@ def check_reader(fam: Family, spec: gen.Spec, variant) -> list:
         diffs.append((R_TREE, "loaded tree is not well-formed: " + "; ".join(wf)))
     for clause, t in c05.compare(exp, got):
         diffs.append((R_TREE, f"{clause}: {t}; document nodes {clip(json.dumps(doc['nodes'], ensure_ascii=False), 200)}"))
+    n_dicts = sum(1 for e in doc["nodes"] if isinstance(e[1], dict))
+    if fam.load_mapper is not None and (len(calls) != n_dicts or any(c != "dict" for c in calls)):
+        diffs.append((R_MAPPER, f"mapper called {len(calls)} times with {sorted(set(calls))}, the document has {n_dicts} dict entries among {len(doc['nodes'])}; nodes {clip(json.dumps(doc['nodes'], ensure_ascii=False), 200)}"))
     if file_meta != doc["meta"]:
         diffs.append((R_META, f"file_meta {clip(file_meta, 150)} != header {clip(doc['meta'], 150)}"))
     return diffs
@@ -645,7 +666,7 @@ def run(prop: str, tier: str, only=None) -> Result:
         f"value_map{{default,off,custom[,custom w/o kind]}} x meta{{None,dict}}, StringIO target; exhaustive"
     )
     res.bounds["reader (independently encoded documents -> load)"] = (
-        "the same trees x 6 header variants (no maps, documented default key map, default keys + kind value list in other order with an unused value, "
+        "the same trees x 6 header variants (+ 2 for typed string families: the plain-tree layout without kinds and with bare strings, which a TypedTree loads with the default kind) (no maps, documented default key map, default keys + kind value list in other order with an unused value, "
         "custom keys + value lists, other short keys, value lists only); 4 literal user-guide documents; "
         f"{len(MALFORMED)} malformed headers (RuntimeError) + {len(MALFORMED_META)} malformed 'meta' members (any rejection) x {{Tree, TypedTree}}"
     )
